@@ -75,7 +75,10 @@ def register(add, NOTE):
         "Theorem over the cache state machine (zint cleared by the frequency setter, zins frequency independent): after ANY sequence of "
         "SetF/Compute/FarField/NearField the values compute() uses equal those of a fresh object at the current frequency; fields and "
         "repeated computes change no cache; the attachment writer's output is independent of set iteration order (sorted permutations of "
-        "distinct keys are equal). The property itself is decided on the real code: random operation sequences on one object vs fresh "
+        "distinct keys are equal); a second state machine (matrix in memory, number of times the loads sit on it, right-hand side) over "
+        "set-frequency / compute / field requests / REPLACED sources: a compute after any session leaves what it leaves on a fresh object, and "
+        "the lazy-matrix and stale-right-hand-side variants are refuted; stage `session` runs the real operation sequences on that model "
+        "inside Coq and compares load multiplicity and right-hand-side support of the real object. The property itself is decided on the real code: random operation sequences on one object vs fresh "
         "objects (1e-12), sweep steps of main() vs single runs (text), and byte comparison across fresh processes; per-step load "
         "impedances are tied to the extracted formulas at two frequencies on one object.",
         "Rocq invariant proof over a cache state machine + history / process oracles on the real code", "DESIGN.md §6 C14",
@@ -88,7 +91,9 @@ def register(add, NOTE):
         "max|Z| on random antennas (tolerance 1e-9). Theorems: a directly computed entry is the published MININEC-3 expression for ANY "
         "potential functional; over ground the entry is the free-space term minus the same expression for the mirrored source except "
         "grounded sources; the image pass integrates the same kernel over the mirrored chord; far-pair potentials are orientation free "
-        "(numpy's Gauss tables are symmetric, checked on the dumped integers). PARTIAL: the 1e-4 agreement of Gauss quadrature with the "
+        "(numpy's Gauss tables are symmetric, checked on the dumped integers); a COPIED entry is exact: the entry of a pulse pair that is a "
+        "translate of another pair equals that pair's entry at every optimisation level for any potential functional, and the hypothesis "
+        "(the pairs of every copy group ARE translates) is measured on every case of the correspondence. PARTIAL: the 1e-4 agreement of Gauss quadrature with the "
         "exact integral is measured by adaptive quadrature on geometry derived from the touching segments.",
         "Rocq proof over a path-faithful model + entry-wise vm_compute correspondence + quadrature oracle", "DESIGN.md §6 C02, App. A.2", note=NOTE + PART)
     add("C03",
@@ -146,8 +151,10 @@ def register(add, NOTE):
         "numbers of (emulated) wires, sources and loads of either family, orders of S-parameter functions, far-field (dBi, V/m, new power "
         "level, pattern file) and near-field requests, the generated answer sequence is read completely by the prompt automaton, which "
         "recovers exactly those counts and choices. Tie: stage `bas` runs the automaton inside Coq on the tokenised REAL generated text of "
-        "random models (BASIC versions 9/12/13) and compares with the real model; the model writer's sequence must be the real one. PARTIAL: "
-        "the values on the lines and the re-read model (pulse numbering with BASIC's exact end matching, sources in degrees, loads, media, "
+        "random models (BASIC versions 9/12/13) and compares with the real model; the model writer's sequence must be the real one. Values: "
+        "the magnitude / phase-in-degrees formulas of a source and the unit factor of S-parameter coefficients per BASIC version are extracted "
+        "from the source by the translator and proved to read back as the model's complex voltage / coefficient (the phase in radians is "
+        "refuted). PARTIAL: the other values on the lines and the re-read model (pulse numbering with BASIC's exact end matching, sources in degrees, loads, media, "
         "feed impedance for plain-wire models) are compared by an independent Python reader; the BASIC program itself is not available. "
         "Known finding: insulated thick wires (stale i6).",
         "Rocq proof (parser/printer round trip for the prompt automaton) + vm_compute correspondence on the real text + independent re-reading oracle",
